@@ -246,6 +246,35 @@ pub fn universe(w: u8, maxlen: Option<u8>) -> Vec<EP> {
     out
 }
 
+/// The "spine" of a wide type: every ancestor (all lengths 0..=w) of one fixed full-length key,
+/// so that a trie over a wide type can hold a path with one node per length (depth-dependent
+/// behaviour: anything that counts, bounds or recurses along a path of up to w+1 nodes).
+pub fn spine(w: u8) -> Vec<EP> {
+    let leaf = 0x5A3C_96E1_0F78_B4D2_5A3C_96E1_0F78_B4D2u128 & mask(w);
+    (0..=w).map(|l| EP::new(leaf, l).canon()).collect()
+}
+
+/// sparse universe of a wide type plus the spine and the siblings that branch off it
+pub fn universe_with_spine(w: u8, maxlen: Option<u8>) -> Vec<EP> {
+    let mut out = universe(w, maxlen);
+    if w == 8 || maxlen.is_some() {
+        return out;
+    }
+    let mut have: std::collections::BTreeSet<(u128, u8)> = out.iter().map(|e| e.key()).collect();
+    for s in spine(w) {
+        let mut add = vec![s];
+        if s.len > 0 {
+            add.push(EP::new(s.bits ^ (1u128 << (128 - s.len as u32)), s.len));
+        }
+        for e in add {
+            if have.insert(e.key()) {
+                out.push(e);
+            }
+        }
+    }
+    out
+}
+
 /// random host bits for a prefix of a `w`-bit representation
 pub fn with_host(e: EP, w: u8, rng: &mut Rng) -> EP {
     let wm = mask(w);
